@@ -645,6 +645,41 @@ namespace
 	    touch = true;
 	  }
       }
+    else if (op == "PULLX")
+      {
+	// A pull regardless of what the result set said before (end of
+	// results, a failure): what comes out is not specified, but the
+	// contract of the call still holds -- true means *out_stack was set.
+	int r = argi (s, 0);
+	auto it = st.R.find (r);
+	if (it == st.R.end ())
+	  ev << " skip";
+	else
+	  {
+	    zw_stack *out = reinterpret_cast <zw_stack *> (uintptr_t (0x7171717171717171ULL));
+	    zw_stack *const untouched = out;
+	    dwgrep_verif_tag = (unsigned long) r + 1;
+	    call_checked <bool>
+	      ("zw_result_next", false,
+	       [&] (zw_error **e) { return zw_result_next (it->second.r, &out, e); },
+	       &failed, &msg);
+	    dwgrep_verif_tag = 0;
+	    ev << " was=" << (it->second.failed ? "failed" : it->second.ended ? "ended" : "live");
+	    if (failed)
+	      ev << " fail msg=" << hexenc (msg);
+	    else if (out == untouched)
+	      contract_fail ("zw_result_next", "success reported but *out_stack not set (pull after "
+			     + std::string (it->second.failed ? "a failed pull" : it->second.ended ? "end of results" : "a result") + ")");
+	    else if (out == nullptr)
+	      ev << " end";
+	    else
+	      {
+		ev << " stack";
+		zw_stack_destroy (out);
+	      }
+	    touch = true;
+	  }
+      }
     else if (op == "CANCEL")
       {
 	int r = argi (s, 0);
